@@ -806,29 +806,35 @@ pub fn c06_relayout(a: &str, b: &str, cfg: &Cfg) -> Vec<String> {
 pub fn c05_structure(input: &str, cfg: &Cfg, marks: &[crate::gen::Mark], texts: &[String]) -> Vec<String> {
     use crate::gen::Mark;
     let mut fails = vec![];
-    let ti = lex_offsets(input);
-    if ti.len() != marks.len() + 1 {
+    // comments (the layouts of this family only insert `//` comments at line ends) are not generated tokens: the marks
+    // are matched against the non-comment tokens
+    let is_comment = |t: &OTok| matches!(t.kind, RawTokenType::Comment(_));
+    let ti_all = lex_offsets(input);
+    if ti_all.iter().filter(|t| !is_comment(t)).count() != marks.len() + 1 {
         return fails; // generated tokens do not map one-to-one to lexer tokens: not a case for this oracle
     }
     let out = fmt(input, cfg);
-    let to = lex_offsets(&out);
-    if to.len() != ti.len() {
+    let to_all = lex_offsets(&out);
+    if to_all.len() != ti_all.len() {
         return fails; // C02's business
     }
     let unit: usize = if cfg.use_tabs { 1 } else { cfg.tab_width as usize };
-    // first-on-line flag and indentation (in characters) of every output token
-    let mut first = vec![false; to.len()];
-    let mut indent = vec![0usize; to.len()];
+    // first-on-line flag and indentation (in characters) of every output token (comments included), then restricted
+    let mut first_all = vec![false; to_all.len()];
+    let mut indent_all = vec![0usize; to_all.len()];
     let mut line_indent = 0usize;
-    for (i, t) in to.iter().enumerate() {
+    for (i, t) in to_all.iter().enumerate() {
         let gap = &out[t.start..t.start + t.ws_len];
         if i == 0 || gap.contains('\n') {
-            first[i] = true;
+            first_all[i] = true;
             line_indent = gap.rsplit('\n').next().unwrap_or("").chars().count();
         }
-        indent[i] = line_indent;
+        indent_all[i] = line_indent;
     }
-    let openers = ["begin", "repeat", "try", "except", "finally", "else", "const", "var", "type", "resourcestring", "private", "protected", "public", "published"];
+    let keep: Vec<usize> = (0..to_all.len()).filter(|&i| !is_comment(&to_all[i])).collect();
+    let first: Vec<bool> = keep.iter().map(|&i| first_all[i]).collect();
+    let indent: Vec<usize> = keep.iter().map(|&i| indent_all[i]).collect();
+    let openers = ["begin", "repeat", "try", "except", "finally", "else", "case", "const", "var", "type", "resourcestring", "private", "protected", "public", "published"];
     for (i, m) in marks.iter().enumerate() {
         let d = match m {
             Mark::Start(d) | Mark::Closer(d) => *d,
@@ -842,6 +848,16 @@ pub fn c05_structure(input: &str, cfg: &Cfg, marks: &[crate::gen::Mark], texts: 
                 _ => false,
             })
         };
+        // absolute clause for the outermost level: a statement/declaration the generator placed at depth 0 (unit
+        // keywords, routine headers of the implementation part, statements of a bare statement list) starts its own
+        // line without indentation — it has no enclosing block to drift with
+        if let Mark::Start(0) = m {
+            if !first[i] {
+                fails.push(format!("c05: top-level {:?} does not start its own line", texts[i]));
+            } else if indent[i] != 0 {
+                fails.push(format!("c05: top-level {:?} is indented {}", texts[i], indent[i]));
+            }
+        }
         let opener = if d > 0 { find_prev(d - 1) } else { None };
         let opener_text = opener.map(|j| texts[j].to_lowercase());
         let in_listed_block = matches!(m, Mark::Start(_)) && opener_text.as_ref().map_or(false, |t| openers.contains(&t.as_str()))
